@@ -61,6 +61,9 @@ func c06ConstantsRun(lang string) {
 		ast.NewScalar(ast.KindString, ast.Value(v.Str("c2", "manual", "2"))),
 	})
 	union.Nullable = v.Bool("nullable")
+	if v.Bool("hasdefault") {
+		union.Default = "auto"
+	}
 	var t ast.Type
 	switch v.Choose(4) {
 	case 0:
@@ -355,3 +358,39 @@ func c06IntersectionUnionRun(lang string) {
 
 func VerifC06GoIntersectionUnion()   { c06IntersectionUnionRun("go") }
 func VerifC06JavaIntersectionUnion() { c06IntersectionUnionRun("java") }
+
+// c06IntConstantsRun: a union of references to structs whose only shared constant field is NOT a string
+// (`schemaVersion: 1` / `schemaVersion: 2`): no discriminator can be inferred from it.
+func c06IntConstantsRun(lang string) {
+	p := ast.NewSchema("p", ast.SchemaMeta{})
+	mk := func(n int64) ast.Type {
+		fields := []ast.StructField{ast.NewStructField("schemaVersion", ast.NewScalar(ast.KindInt64, ast.Value(n)), ast.Required())}
+		if v.Bool("alsostring") {
+			fields = append(fields, ast.NewStructField("kind", ast.NewScalar(ast.KindString, ast.Value(v.Str("kindvalue", "a", "b"))), ast.Required()))
+		}
+		return ast.NewStruct(fields...)
+	}
+	p.AddObject(ast.NewObject("p", "V1", mk(1)))
+	p.AddObject(ast.NewObject("p", "V2", mk(2)))
+	u := ast.NewDisjunction(ast.Types{ast.NewRef("p", "V1"), ast.NewRef("p", "V2")})
+	if v.Choose(2) == 0 {
+		p.AddObject(ast.NewObject("p", "Foo", u))
+	} else {
+		f := ast.NewStructField("event", u)
+		f.Required = v.Bool("required")
+		p.AddObject(ast.NewObject("p", "Foo", ast.NewStruct(f)))
+	}
+	v.Observe(p)
+	out, err := chainOf(lang).Process(ast.Schemas{p})
+	if err != nil {
+		v.Reach("chain returned an error")
+		return
+	}
+	v.Observe(out)
+	nfSchemas(out, nfByLang[lang])
+}
+
+func VerifC06GoIntConstants()     { c06IntConstantsRun("go") }
+func VerifC06JavaIntConstants()   { c06IntConstantsRun("java") }
+func VerifC06PHPIntConstants()    { c06IntConstantsRun("php") }
+func VerifC06PythonIntConstants() { c06IntConstantsRun("python") }
